@@ -80,6 +80,22 @@ def mApplyEv (s : MSt) (ty : EvTy) (id : Str) (author : Option Str) : MSt :=
   | .delEnd => { s with delEv := none }
   | .ref => s
 
+def MSt.push (pp : PPath) (s : MSt) (pieces : List Piece) (nw : Str × Str) : MSt :=
+  if !s.pending.isEmpty && nw = s.wr then { s with pending := s.pending ++ pieces }
+  else
+    let s0 := if s.pending.isEmpty then s
+      else { s with out := s.out ++ virt pp s.wr.1 ++ s.pending.map (pieceSpan pp) ++ virt pp s.wr.2 }
+    { s0 with pending := pieces, wr := nw }
+
+def MSt.meta (cm : CMap) (pp : PPath) (s1 : MSt) (rest : List Item) : MSt :=
+  let s2 := { s1 with deferred := s1.deferred ++ [{ ins := evMap s1.insEv, del := evMap s1.delEv, comments := s1.comments }] }
+  let redline := s2.insEv.isSome || s2.delEv.isSome
+  let defer := redline && nextIsRedline s2.insEv.isSome s2.delEv.isSome rest
+  if defer then s2
+  else
+    let s3 := s2.flush pp
+    { s3 with out := s3.out ++ virt pp (metaWrap (metaBlock cm s3.deferred)), deferred := [] }
+
 /-- `_map_paragraph_content`, one item at a time -/
 def mapStep (clean : Bool) (cm : CMap) (pp : PPath) (s : MSt) (item : Item) (rest : List Item) : MSt :=
   match item with
@@ -92,22 +108,8 @@ def mapStep (clean : Bool) (cm : CMap) (pp : PPath) (s : MSt) (item : Item) (res
       let pieces := runPieces r ⟨pp, loc⟩ insId delId
       let s1 : MSt :=
         if clean && delId.isSome then s
-        else
-          let nw := if clean then ([], []) else wrappers (evMap s.insEv) (evMap s.delEv) s.comments
-          if !s.pending.isEmpty && nw = s.wr then { s with pending := s.pending ++ pieces }
-          else
-            let s0 := if s.pending.isEmpty then s
-              else { s with out := s.out ++ virt pp s.wr.1 ++ s.pending.map (pieceSpan pp) ++ virt pp s.wr.2 }
-            { s0 with pending := pieces, wr := nw }
-      if clean then s1
-      else
-        let s2 := { s1 with deferred := s1.deferred ++ [{ ins := evMap s1.insEv, del := evMap s1.delEv, comments := s1.comments }] }
-        let redline := insId.isSome || delId.isSome
-        let defer := redline && nextIsRedline insId.isSome delId.isSome rest
-        if defer then s2
-        else
-          let s3 := s2.flush pp
-          { s3 with out := s3.out ++ virt pp (metaWrap (metaBlock cm s3.deferred)), deferred := [] }
+        else s.push pp pieces (if clean then ([], []) else wrappers (evMap s.insEv) (evMap s.delEv) s.comments)
+      if clean then s1 else s1.meta cm pp rest
 
 def mapLoop (clean : Bool) (cm : CMap) (pp : PPath) : MSt → List Item → MSt
   | s, [] => s
@@ -118,6 +120,12 @@ def paraSpans (clean : Bool) (cm : CMap) (pp : PPath) (p : Para) : List Span :=
   if s.deferred.isEmpty then s.out else s.out ++ virt pp (metaWrap (metaBlock cm s.deferred))
 
 def sepSpan (t : Str) (pp : Option PPath) : Span := { text := t, para := pp }
+
+/-- parts joined by a separator span -/
+def joinSpans (sep : Span) : List (List Span) → List Span
+  | [] => []
+  | [x] => x
+  | x :: r => x ++ [sep] ++ joinSpans sep r
 
 mutual
   /-- `_map_blocks`: `emitted` = number of blocks emitted so far in this container -/
@@ -142,10 +150,9 @@ mutual
   def tableSpans (clean : Bool) (cm : CMap) (pp : PPath) (rows : List Row) : List Span :=
     let cellSp := rowsCellSpans clean cm pp rows 0
     let cellsOf := rows.map Row.cells
-    (List.range rows.length).flatMap fun ri =>
-      (if ri > 0 then [sepSpan ['\n'] none] else []) ++
-        ((rowContentCells cellsOf ri).zipIdx.flatMap fun ((r, c), k) =>
-          (if k > 0 then [sepSpan " | ".toList none] else []) ++ (((cellSp[r]?).getD [])[c]?.getD []))
+    joinSpans (sepSpan ['\n'] none) ((List.range rows.length).map fun ri =>
+      joinSpans (sepSpan " | ".toList none)
+        ((rowContentCells cellsOf ri).map fun (r, c) => ((cellSp[r]?).getD [])[c]?.getD []))
 end
 
 /-- `_build_map` -/
